@@ -249,6 +249,51 @@ def job_api(j):
                                                                    '/second-poll-after-other-blocks-changed' if mode.startswith('second') else ''),
                     s.id_, f'{s.id_} @{s.offset} = {own.hex()}: {df}' + (f' ({mode})' if mode else ''), k)
     world.set_debug_logging(True)
+    # ids that two sensors of the model share (the result has one slot): WHICH of them fills the slot is settled on
+    # contents where both decode and differ; with other contents the slot still holds that sensor's documented reading
+    if fam != 'ES':
+        eff = {}
+        for k in (2, 3, 0, 1):
+            world.reset()
+            r = make_rig(cfg, transport, fill=api_fill(k, seed))
+            inv = r.inv
+            if r.call(inv.read_device_info)[0] != 'ok':
+                break
+            r.call(inv.read_runtime_data)
+            l0 = len(r.dev.log)
+            st = r.call(inv.read_runtime_data)
+            if st[0] != 'ok':
+                continue
+            d = st[1]
+            windows = [(q['reg'], q['reg'] + q['count'] - 1) for q in r.dev.log[l0:] if q.get('fn') == 3]
+            listed = list(world.listed(inv))
+            ids = [s.id_ for s in listed]
+            for sid in sorted({x for x in ids if ids.count(x) > 1}):
+                cands = [s for s in listed if s.id_ == sid and own_span(s) and
+                         any(lo <= s.offset and s.offset + (refdec.size_of(s) + 1) // 2 - 1 <= hi for lo, hi in windows)]
+                if len(cands) < 2 or sid not in d:
+                    continue
+                refs = []
+                for s in cands:
+                    nb = refdec.size_of(s)
+                    refs.append(refdec.decode(s, r.dev.rf.getbytes(s.offset, (nb + 1) // 2)[:nb]))
+
+                def agrees(s, ref):
+                    got = ('ValueError', '') if (d[sid] is None and ref is refdec.NOVALUE) else ('value', d[sid])
+                    return not compare(s, got, ref)
+                if sid not in eff:
+                    ok = [i for i, (s, ref) in enumerate(zip(cands, refs)) if agrees(s, ref)]
+                    if len(ok) == 1 and all(x is not refdec.NOVALUE for x in refs):
+                        eff[sid] = (tname(cands[ok[0]]), cands[ok[0]].offset)
+                    continue
+                pick = [(s, ref) for s, ref in zip(cands, refs) if (tname(s), s.offset) == eff[sid]]
+                if pick:
+                    n += 1
+                    if not agrees(*pick[0]):
+                        s, ref = pick[0]
+                        bad(f'api:documented-reading/{fam}/{tname(s)}/id-shared-by-two-sensors', sid,
+                            f'{sid}: the slot holds {d[sid]!r}; with other contents it was filled by {eff[sid][0]}@{eff[sid][1]}, whose '
+                            f'registers now read {ref!r} (fill {k})', k)
     # single reads through both entry points, in both orders, on one object: read_sensor(id) / read_setting(id) report the
     # documented reading of THAT item's registers (ids may name a sensor and a setting at different addresses)
     if cfg.get('singles'):
